@@ -65,7 +65,7 @@ def check(ctx: Ctx) -> None:
         for n in walk_shallow(fn.node):
             if isinstance(n, ast.Call) and any(kw.arg == "context" for kw in n.keywords) and (dotted(n.func) or "").split(".")[-1] in ("create_task", "ensure_future", "Task", "call_soon", "run"):
                 ctx.ob("C15.task", f"context-arg:{fn.qualname}", False, f"{fn.qualname} passes an explicit context= to {norm(n.func)}", file=fn.file, line=n.lineno, function=fn.qualname)
-    valsweep.report(ctx, ("C15.own-input", "C12.order"))
-    check_path(ctx, "C15.state", [f"{VAL}.validate_data_element_freetext", "ahbicht.expressions.format_constraint_expression_evaluation.format_constraint_evaluation"],
-               "a format verdict must depend on this element's input only", extra_classes=[f"{FCE}.FcEvaluator"])
+    ctx.soft(lambda: valsweep.report(ctx, ("C15.own-input", "C12.order")))
+    ctx.soft(lambda: check_path(ctx, "C15.state", [f"{VAL}.validate_data_element_freetext", "ahbicht.expressions.format_constraint_expression_evaluation.format_constraint_evaluation"],
+               "a format verdict must depend on this element's input only", extra_classes=[f"{FCE}.FcEvaluator"]))
     ctx.assume("L5: a Task runs in a copy of the context current at its creation; awaiting a coroutine directly runs it in the awaiter's context")
